@@ -52,8 +52,14 @@ type c03cgRaw struct {
 	err      string
 }
 
+// c03cgOpt selects the compilation: target, and the peephole rewriting
+// (ssa.Program.Peephole, which ast/package.go has switched off: "liveness
+// analysis is broken") applied to the compiled program after its gc
+// instructions were dropped — the only way real code produces bts / btc.
+type c03cgOpt struct{ gmw, peephole bool }
+
 // c03cgBuild = ssa.Program.CompileCircuit with a snapshot after prog.Circuit.
-func c03cgBuild(src string) (res c03cgRaw) {
+func c03cgBuild(src string, opt c03cgOpt) (res c03cgRaw) {
 	saved := os.Stdout
 	os.Stdout = c03DevNull
 	defer func() { os.Stdout = saved }()
@@ -63,6 +69,9 @@ func c03cgBuild(src string) (res c03cgRaw) {
 		}
 	}()
 	params := utils.NewParams()
+	if opt.gmw {
+		params.Target = utils.TargetGMW
+	}
 	buf := &c03Buf{}
 	params.SSAOut = buf
 	prog, _, err := compiler.New(params).CompileSSA("{data}", strings.NewReader(src), nil)
@@ -70,6 +79,22 @@ func c03cgBuild(src string) (res c03cgRaw) {
 	if err != nil {
 		res.err = err.Error()
 		return
+	}
+	if opt.peephole {
+		var steps []ssa.Step
+		for _, st := range prog.Steps {
+			if st.Instr.Op != ssa.GC {
+				steps = append(steps, st)
+			}
+		}
+		prog.Steps = steps
+		if err = prog.Peephole(); err != nil {
+			res.err = err.Error()
+			return
+		}
+		pp := &c03Buf{}
+		prog.PP(pp)
+		res.listing = pp.String()
 	}
 	res.prog = prog
 
@@ -220,9 +245,15 @@ func c03cgWf(prog *ssa.Program) (ok bool, why string) {
 		case ssa.Band, ssa.Bor, ssa.Bxor, ssa.Bclr:
 			good = na == 2 && 1 <= mx && ob <= mx
 		case ssa.Udiv, ssa.Umod:
-			good = na == 2 && 1 <= mx && ob == mx
+			good = na == 2 && 1 <= mx && ob <= mx
 		case ssa.Idiv, ssa.Imod:
-			good = na == 2 && 1 <= b0 && b1 == b0 && ob == b0
+			good = na == 2 && 1 <= mx && 1 <= ob && ob <= mx
+		case ssa.Concat:
+			good = na == 2 && ob == b0+b1
+		case ssa.Bts, ssa.Btc:
+			good = na == 2 && isConst(1) && ob == 1
+		case ssa.Builtin:
+			good = na == 2 && 2 <= mx && 1 <= ob
 		case ssa.Ult, ssa.Ule, ssa.Ugt, ssa.Uge, ssa.Eq, ssa.Neq, ssa.Ilt, ssa.Ile, ssa.Igt, ssa.Ige:
 			good = na == 2 && 1 <= mx && ob == 1
 		case ssa.And, ssa.Or:
@@ -259,8 +290,10 @@ func c03cgWf(prog *ssa.Program) (ok bool, why string) {
 }
 
 var (
-	c03cgCtx    *Ctx
-	c03cgBudget int
+	c03cgCtx     *Ctx
+	c03cgBudget  int
+	c03cgSeq     int
+	c03cgFullSeq int
 )
 
 type c03cgReplay struct {
@@ -271,13 +304,31 @@ type c03cgReplay struct {
 	Error   string `json:"error,omitempty"`
 }
 
-// c03cgCase emits the circuit-generation correspondence case for one compiled
-// program.  ssx = the SSA term c03SSASX built from ref (the real listing).
+// c03cgHasDiv: the program contains a division (excluded for the GMW target:
+// the Goldschmidt divider is not exact, C07 findings F31-F33)
+func c03cgHasDiv(prog *ssa.Program) bool {
+	for _, st := range prog.Steps {
+		switch st.Instr.Op {
+		case ssa.Idiv, ssa.Udiv, ssa.Imod, ssa.Umod:
+			return true
+		}
+	}
+	return false
+}
+
+func c03cgStat(ci *circuit.Circuit) string {
+	return fmt.Sprintf("gates=%d wires=%d xor=%d xnor=%d and=%d or=%d inv=%d", ci.NumGates, ci.NumWires,
+		ci.Stats[circuit.XOR], ci.Stats[circuit.XNOR], ci.Stats[circuit.AND], ci.Stats[circuit.OR], ci.Stats[circuit.INV])
+}
+
+// c03cgCase emits the circuit-generation correspondence cases for one compiled
+// program of the generator.  ssx = the SSA term c03SSASX built from ref (the
+// real listing).
 func c03cgCase(c *Ctx, src string, ssx SX, vecs [][]*big.Int, ref *c03Compiled) {
 	if ref.circ == nil || ref.prog == nil {
 		return
 	}
-	raw := c03cgBuild(src)
+	raw := c03cgBuild(src, c03cgOpt{})
 	if raw.err != "" {
 		c.Fail("c03cg:replay-of-CompileCircuit-failed", raw.err, c03cgReplay{Program: src, Error: raw.err})
 		return
@@ -288,14 +339,40 @@ func c03cgCase(c *Ctx, src string, ssx SX, vecs [][]*big.Int, ref *c03Compiled) 
 		return
 	}
 	// the replayed compilation is the real one
-	st := func(ci *circuit.Circuit) string {
-		return fmt.Sprintf("gates=%d wires=%d xor=%d xnor=%d and=%d or=%d inv=%d", ci.NumGates, ci.NumWires,
-			ci.Stats[circuit.XOR], ci.Stats[circuit.XNOR], ci.Stats[circuit.AND], ci.Stats[circuit.OR], ci.Stats[circuit.INV])
-	}
-	if st(raw.circ) != st(ref.circ) {
+	if c03cgStat(raw.circ) != c03cgStat(ref.circ) {
 		c.Fail("c03cg:replayed-circuit-differs", "CompileCircuit replayed step by step gives a different circuit",
-			c03cgReplay{Program: src, Real: st(ref.circ), Replica: st(raw.circ)})
+			c03cgReplay{Program: src, Real: c03cgStat(ref.circ), Replica: c03cgStat(raw.circ)})
 		return
+	}
+	if !c03cgEmit(c, src, ssx, vecs, &raw, ref.circ, c03cgOpt{}) {
+		return
+	}
+	// GMW target: every third program with a small circuit
+	c03cgSeq++
+	if c03cgSeq%3 == 0 && len(raw.gates) < c.N(5000, 20000) {
+		g := c03cgBuild(src, c03cgOpt{gmw: true})
+		if g.err != "" {
+			c.Fail("c03cg:gmw-compilation-failed", g.err, c03cgReplay{Program: src, Error: g.err})
+			return
+		}
+		if g.listing != ref.listing {
+			c.Hist("cg-skipped:gmw-listing-differs")
+			return
+		}
+		var cmp *circuit.Circuit
+		if !c03cgHasDiv(g.prog) {
+			cmp = ref.circ // without division both targets compute the same function
+		}
+		c03cgEmit(c, src, ssx, vecs, &g, cmp, c03cgOpt{gmw: true})
+	}
+}
+
+// c03cgEmit: one case for the snapshot raw.  cmp != nil: the circuit whose
+// outputs raw.circ must reproduce (oracle).  Returns false if nothing was emitted.
+func c03cgEmit(c *Ctx, src string, ssx SX, vecs [][]*big.Int, raw *c03cgRaw, cmp *circuit.Circuit, opt c03cgOpt) bool {
+	tgt := "yao"
+	if opt.gmw {
+		tgt = "gmw"
 	}
 	// the outputs of the real circuit on ALL vectors are already tied to the
 	// listing by mode 1; here a few vectors suffice (fewer for big circuits,
@@ -311,28 +388,34 @@ func c03cgCase(c *Ctx, src string, ssx SX, vecs [][]*big.Int, ref *c03Compiled) 
 	var outs [][]*big.Int
 	for _, v := range vecs[:nv] {
 		got, e := c03Compute(raw.circ, v)
-		want, e2 := c03Compute(ref.circ, v)
-		if e != "" || e2 != "" {
+		if e != "" {
 			c.Hist("cg-skipped:compute-error")
-			return
+			return false
 		}
-		if fmt.Sprint(got) != fmt.Sprint(want) {
-			c.Fail("c03cg:replayed-circuit-differs", "outputs differ on "+c03VecStr(v),
-				c03cgReplay{Program: src, Inputs: c03VecStr(v), Real: c03VecStr(want), Replica: c03VecStr(got)})
-			return
+		if cmp != nil {
+			want, e2 := c03Compute(cmp, v)
+			if e2 != "" {
+				c.Hist("cg-skipped:compute-error")
+				return false
+			}
+			if fmt.Sprint(got) != fmt.Sprint(want) {
+				c.Fail("c03cg:"+tgt+"-circuit-differs", "outputs differ on "+c03VecStr(v),
+					c03cgReplay{Program: src, Inputs: c03VecStr(v), Real: c03VecStr(want), Replica: c03VecStr(got)})
+				return false
+			}
 		}
 		outs = append(outs, got)
 	}
 	// the model processes ~60 000 gates per second (extracted binary numbers),
 	// so circuits of >= 10 000 gates are compared only while a budget of gates
-	// lasts (quick 400 000, thorough 20 000 000); smaller circuits always
+	// lasts; smaller circuits always
 	if c03cgCtx != c {
-		c03cgCtx, c03cgBudget = c, c.N(400000, 20000000)
+		c03cgCtx, c03cgBudget = c, c.N(300000, 20000000)
 	}
 	if len(raw.gates) >= 10000 {
 		if c03cgBudget < len(raw.gates) {
 			c.Hist("cg-skipped:big-circuit-gate-budget")
-			return
+			return false
 		}
 		c03cgBudget -= len(raw.gates)
 	}
@@ -351,11 +434,20 @@ func c03cgCase(c *Ctx, src string, ssx SX, vecs [][]*big.Int, ref *c03Compiled) 
 		}
 	}
 	wf, why := c03cgWf(raw.prog)
-	full := len(raw.gates) <= c03cgFullLimit
+	if opt.gmw && wf && c03cgHasDiv(raw.prog) {
+		wf, why = false, "division"
+	}
+	// full gate lists: all small ones, the larger ones (up to c03cgFullLimit)
+	// only for every fourth case of the quick tier (the hash covers the rest)
+	c03cgFullSeq++
+	full := len(raw.gates) <= 300 || (len(raw.gates) <= c03cgFullLimit && (c.Thorough() || c03cgFullSeq%4 == 0))
 	mode := 4
+	if opt.gmw {
+		mode = 6
+	}
 	var gl []SX
 	if full {
-		mode = 5
+		mode++
 		gl = make([]SX, len(raw.gates))
 		for i, g := range raw.gates {
 			gl[i] = L(I(g.op), I(g.a), I(g.b), I(g.o))
@@ -364,14 +456,14 @@ func c03cgCase(c *Ctx, src string, ssx SX, vecs [][]*big.Int, ref *c03Compiled) 
 	c.Case(L(I(mode), ssx, c03VecSX(vecs[:nv])),
 		L(I(len(raw.gates)), Ints(counts), U64(c03cgHash(raw.gates)), Bool(raw.wfc), Bool(raw.dbu), Bool(wf),
 			c03VecSX(outs), L(gl...)))
-	c.Hist("cg-cases")
+	c.Hist("cg-cases:" + tgt)
 	if full {
-		c.Hist("cg-cases:full-gate-list")
+		c.Hist("cg-cases:" + tgt + ":full-gate-list")
 	}
 	if wf {
-		c.Hist("cg-theorem-hypothesis(cg_wf):holds")
+		c.Hist("cg-theorem-hypothesis(cg_wf," + tgt + "):holds")
 	} else {
-		c.Hist("cg-theorem-hypothesis(cg_wf):fails:" + why)
+		c.Hist("cg-theorem-hypothesis(cg_wf," + tgt + "):fails:" + why)
 	}
 	switch n := len(raw.gates); {
 	case n < 100:
@@ -382,5 +474,152 @@ func c03cgCase(c *Ctx, src string, ssx SX, vecs [][]*big.Int, ref *c03Compiled) 
 		c.Hist("cg-gates:1000-9999")
 	default:
 		c.Hist("cg-gates:>=10000")
+	}
+	return true
+}
+
+// ------------------------------------------------------------------------
+// Directed programs for the opcodes the generator's grammar cannot reach:
+// concat (array + array), builtin (native("hamming", a, b)), bts / btc (the
+// peephole rules of ssa/peephole.go, run here on the compiled program).  They
+// have no Mini term; each carries its own expected function (oracle), the real
+// listing goes through eval_ssa (mode 1) and circuit_of_ssa (modes 4-7).
+
+type c03cgDirected struct {
+	name     string
+	src      string
+	widths   []int
+	peephole bool
+	expect   func(in []*big.Int) []*big.Int
+}
+
+func c03cgPopcount(v *big.Int) int64 {
+	n := int64(0)
+	for i := 0; i < v.BitLen(); i++ {
+		if v.Bit(i) == 1 {
+			n++
+		}
+	}
+	return n
+}
+
+func c03cgDirectedPrograms() []c03cgDirected {
+	var l []c03cgDirected
+	// concat
+	for _, d := range [][3]int{{2, 3, 4}, {1, 1, 1}, {3, 1, 7}, {1, 4, 9}, {2, 2, 33}} {
+		k, m, w := d[0], d[1], d[2]
+		l = append(l, c03cgDirected{
+			name: fmt.Sprintf("concat:[%d]uint%d+[%d]uint%d", k, w, m, w),
+			src: fmt.Sprintf("package main\n\nfunc main(a [%d]uint%d, b [%d]uint%d) [%d]uint%d {\n\treturn a + b\n}\n",
+				k, w, m, w, k+m, w),
+			widths: []int{k * w, m * w},
+			expect: func(in []*big.Int) []*big.Int {
+				return []*big.Int{new(big.Int).Or(in[0], new(big.Int).Lsh(in[1], uint(k*w)))}
+			}})
+	}
+	// concat of concats, then an element read with a run-time index
+	l = append(l, c03cgDirected{
+		name: "concat:a+b+a,index",
+		src: "package main\n\nfunc main(a [2]uint5, b [1]uint5, i uint3) ([5]uint5, uint5) {\n" +
+			"\tc := a + b + a\n\treturn c, c[i]\n}\n",
+		widths: []int{10, 5, 3},
+		expect: func(in []*big.Int) []*big.Int {
+			c := new(big.Int).Or(in[0], new(big.Int).Lsh(in[1], 10))
+			c.Or(c, new(big.Int).Lsh(in[0], 15))
+			e := big.NewInt(0)
+			if i := in[2].Int64(); i < 5 {
+				e = c03Norm(5, new(big.Int).Rsh(c, uint(5*i)))
+			}
+			return []*big.Int{c, e}
+		}})
+	// builtin: hamming; the result has the type of the wider argument
+	for _, d := range [][2]int{{8, 8}, {8, 16}, {5, 3}, {2, 2}, {33, 7}, {64, 64}} {
+		wa, wb := d[0], d[1]
+		wr := wa
+		if wb > wr {
+			wr = wb
+		}
+		l = append(l, c03cgDirected{
+			name: fmt.Sprintf("hamming:uint%d,uint%d", wa, wb),
+			src: fmt.Sprintf("package main\n\nfunc main(a uint%d, b uint%d) uint%d {\n\treturn native(\"hamming\", a, b)\n}\n",
+				wa, wb, wr),
+			widths: []int{wa, wb},
+			expect: func(in []*big.Int) []*big.Int {
+				return []*big.Int{c03Norm(wr, big.NewInt(c03cgPopcount(new(big.Int).Xor(in[0], in[1]))))}
+			}})
+	}
+	// bts / btc: the four peephole patterns
+	for _, d := range [][2]int{{8, 3}, {8, 0}, {8, 7}, {1, 0}, {13, 12}, {40, 33}} {
+		w, k := d[0], d[1]
+		l = append(l, c03cgDirected{
+			name: fmt.Sprintf("bts-btc:uint%d>>%d", w, k),
+			src: fmt.Sprintf("package main\n\nfunc main(a uint%d) (bool, bool, bool, bool) {\n"+
+				"\treturn (a >> %d) & 1 != 0, (a >> %d) & 1 == 0, (a >> %d) & 1 == 1, (a >> %d) & 1 != 1\n}\n",
+				w, k, k, k, k),
+			widths:   []int{w},
+			peephole: true,
+			expect: func(in []*big.Int) []*big.Int {
+				b := int64(in[0].Bit(k))
+				return []*big.Int{big.NewInt(b), big.NewInt(1 - b), big.NewInt(b), big.NewInt(1 - b)}
+			}})
+	}
+	return l
+}
+
+// c03cgOpcodeFamily runs the directed programs (every run, both targets).
+func c03cgOpcodeFamily(c *Ctx) {
+	for _, d := range c03cgDirectedPrograms() {
+		vecs := c03Vectors(c.rng.Fork(), d.widths, 10, 24)
+		var ssx SX
+		for ti, opt := range []c03cgOpt{{peephole: d.peephole}, {gmw: true, peephole: d.peephole}} {
+			raw := c03cgBuild(d.src, opt)
+			if raw.err != "" {
+				c.Fail("c03cg:directed:"+d.name+":compile", raw.err, c03cgReplay{Program: d.src, Error: raw.err})
+				break
+			}
+			// which opcodes the real compilation produced
+			for _, st := range raw.prog.Steps {
+				switch st.Instr.Op {
+				case ssa.Concat, ssa.Bts, ssa.Btc, ssa.Builtin:
+					c.Hist("cg-directed-opcode:" + st.Instr.Op.String())
+				}
+			}
+			// oracle: the real circuit computes the expected function
+			// (a wrong circuit is reported once; its cases are emitted all the
+			// same, so that the models are seen to disagree with it as well)
+			var outs [][]*big.Int
+			reported, bad := false, false
+			for _, v := range vecs {
+				got, e := c03Compute(raw.circ, v)
+				want := d.expect(v)
+				c.Eval(d.src+"|"+c03VecStr(v), true)
+				if e != "" {
+					bad = true
+				}
+				if (e != "" || fmt.Sprint(got) != fmt.Sprint(want)) && !reported {
+					reported = true
+					c.Fail("c03cg:directed:"+d.name+":wrong-value",
+						fmt.Sprintf("inputs %s: circuit %s %s, expected %s", c03VecStr(v), c03VecStr(got), e, c03VecStr(want)),
+						c03cgReplay{Program: d.src, Inputs: c03VecStr(v), Real: c03VecStr(got), Replica: c03VecStr(want)})
+				}
+				outs = append(outs, got)
+			}
+			if bad {
+				break
+			}
+			if ti == 0 {
+				res := c03Compiled{circ: raw.circ, prog: raw.prog, listing: raw.listing}
+				var why string
+				ssx, why = c03SSASX(&res)
+				if why != "" {
+					c.Fail("c03cg:directed:"+d.name+":listing", why, c03cgReplay{Program: d.src, Error: why})
+					break
+				}
+				// the real listing under eval_ssa
+				c.Case(L(I(1), ssx, c03VecSX(vecs)), c03VecSX(outs))
+				c.Hist("ssa-listing-cases:directed")
+			}
+			c03cgEmit(c, d.src, ssx, vecs, &raw, nil, opt)
+		}
 	}
 }
